@@ -444,6 +444,75 @@ def _t_logic_spellings(srcs):
         R().visit(tree)
 
 
+def _t_local_aliases(srcs):
+    """in every method, an attribute of self that the method only reads is read once into a local at the top (`covariance_ = self.covariance`) and the
+    local is used instead; `len(M)` of a matrix-named parameter is `M.shape[0]`; `np.zeros_like(X)` is `np.zeros(X.shape, dtype=X.dtype)`"""
+    import ast
+    MATS = {"A", "G", "P", "W", "pdag", "ordered", "labelled", "M"}
+
+    class L(ast.NodeTransformer):
+        def __init__(self, params):
+            self.params = params
+
+        def visit_Call(self, node):
+            self.generic_visit(node)
+            if isinstance(node.func, ast.Name) and node.func.id == "len" and len(node.args) == 1 and isinstance(node.args[0], ast.Name) and node.args[0].id in MATS & self.params:
+                return ast.copy_location(ast.Subscript(value=ast.Attribute(value=node.args[0], attr="shape", ctx=ast.Load()), slice=ast.Constant(0), ctx=ast.Load()), node)
+            if isinstance(node.func, ast.Attribute) and node.func.attr == "zeros_like" and isinstance(node.func.value, ast.Name) and node.func.value.id == "np" and \
+                    len(node.args) == 1 and not node.keywords and isinstance(node.args[0], ast.Name):
+                x = node.args[0]
+                return ast.copy_location(ast.Call(func=ast.Attribute(value=ast.Name("np", ast.Load()), attr="zeros", ctx=ast.Load()),
+                                                  args=[ast.Attribute(value=x, attr="shape", ctx=ast.Load())],
+                                                  keywords=[ast.keyword(arg="dtype", value=ast.Attribute(value=ast.Name(x.id, ast.Load()), attr="dtype", ctx=ast.Load()))]), node)
+            return node
+
+    def alias_attrs(fn):
+        if not fn.args.args or fn.args.args[0].arg != "self" or fn.name == "__init__":
+            return
+        stored = {n.attr for n in ast.walk(fn) if isinstance(n, ast.Attribute) and isinstance(n.value, ast.Name) and n.value.id == "self" and not isinstance(n.ctx, ast.Load)}
+        called = {n.func.attr for n in ast.walk(fn) if isinstance(n, ast.Call) and isinstance(n.func, ast.Attribute) and isinstance(n.func.value, ast.Name) and n.func.value.id == "self"}
+        # written through a subscript / mutated in place: not a plain read
+        mutated = {n.value.attr for n in ast.walk(fn) if isinstance(n, ast.Subscript) and not isinstance(n.ctx, ast.Load) and isinstance(n.value, ast.Attribute) and
+                   isinstance(n.value.value, ast.Name) and n.value.value.id == "self"}
+        reads = [n for n in ast.walk(fn) if isinstance(n, ast.Attribute) and isinstance(n.value, ast.Name) and n.value.id == "self" and isinstance(n.ctx, ast.Load)]
+        names = sorted({n.attr for n in reads} - stored - called - mutated)
+        taken = {n.id for n in ast.walk(fn) if isinstance(n, ast.Name)} | {a.arg for a in ast.walk(fn) if isinstance(a, ast.arg)}
+        names = [a for a in names if a + "_" not in taken and not a.startswith("__")]
+        if not names:
+            return
+
+        class A(ast.NodeTransformer):
+            def visit_Attribute(self, node):
+                self.generic_visit(node)
+                if isinstance(node.value, ast.Name) and node.value.id == "self" and isinstance(node.ctx, ast.Load) and node.attr in names:
+                    return ast.copy_location(ast.Name(node.attr + "_", ast.Load()), node)
+                return node
+
+            def visit_FunctionDef(self, node):
+                return node if node is not fn else self.generic_visit(node) or node
+
+            def visit_Lambda(self, node):
+                return node
+        doc = fn.body[:1] if fn.body and isinstance(fn.body[0], ast.Expr) and isinstance(fn.body[0].value, ast.Constant) and isinstance(fn.body[0].value.value, str) else []
+        rest = fn.body[len(doc):]
+        holder = ast.Module(body=rest, type_ignores=[])
+        A().visit(holder)
+        pre = [ast.Assign(targets=[ast.Name(a + "_", ast.Store())], value=ast.Attribute(value=ast.Name("self", ast.Load()), attr=a, ctx=ast.Load())) for a in names]
+        fn.body = doc + pre + holder.body
+    for pth, tree in srcs.items():
+        for n in ast.walk(tree):
+            if isinstance(n, (ast.FunctionDef, ast.AsyncFunctionDef)):
+                params = {a.arg for a in n.args.args + n.args.kwonlyargs}
+                holder = ast.Module(body=n.body, type_ignores=[])
+                L(params).visit(holder)
+                n.body = holder.body
+        for n in ast.walk(tree):
+            if isinstance(n, ast.ClassDef):
+                for m in n.body:
+                    if isinstance(m, ast.FunctionDef):
+                        alias_attrs(m)
+
+
 def _t_np_operators(srcs):
     """operators spelled as numpy functions where that is the same for every operand the code can see: a @ b -> np.matmul(a, b), np.eye(n) -> np.identity(n)"""
     import ast
@@ -727,7 +796,7 @@ def _t_accept_lists(srcs):
                         n.body[k:k] = ast.parse("if not isinstance(%s, np.ndarray):\n    %s = np.array(%s)\n" % (a.arg, a.arg, a.arg)).body
 
 
-TREE_TRANSFORMS = {"@coerce_params": _t_coerce_params, "@accept_lists": _t_accept_lists, "@early_exit": _t_early_exit, "@numpy_alias": _t_numpy_alias, "@kwargs_calls": _t_kwargs_calls, "@strip_docs_annotate": _t_strip_docs_annotate, "@logging": _t_logging, "@traced": _t_traced, "@kwonly": _t_kwonly, "@extra_param": _t_extra_param, "@try_reraise": _t_try_reraise, "@np_functions": _t_np_functions, "@small_idioms": _t_small_idioms, "@flip_comparisons": _t_flip_comparisons, "@else_after_exit": _t_else_after_exit, "@comp_to_loop": _t_comp_to_loop, "@logic_spellings": _t_logic_spellings, "@np_operators": _t_np_operators, "@private_module": _t_private_module, "@swap_branches": _t_swap_branches, "@name_conditions": _t_name_conditions, "@ternary_to_if": _t_ternary_to_if,
+TREE_TRANSFORMS = {"@coerce_params": _t_coerce_params, "@accept_lists": _t_accept_lists, "@early_exit": _t_early_exit, "@numpy_alias": _t_numpy_alias, "@kwargs_calls": _t_kwargs_calls, "@strip_docs_annotate": _t_strip_docs_annotate, "@logging": _t_logging, "@traced": _t_traced, "@kwonly": _t_kwonly, "@extra_param": _t_extra_param, "@try_reraise": _t_try_reraise, "@np_functions": _t_np_functions, "@small_idioms": _t_small_idioms, "@flip_comparisons": _t_flip_comparisons, "@else_after_exit": _t_else_after_exit, "@comp_to_loop": _t_comp_to_loop, "@logic_spellings": _t_logic_spellings, "@local_aliases": _t_local_aliases, "@np_operators": _t_np_operators, "@private_module": _t_private_module, "@swap_branches": _t_swap_branches, "@name_conditions": _t_name_conditions, "@ternary_to_if": _t_ternary_to_if,
                    "@shim": _t_shim}
 
 
